@@ -136,6 +136,7 @@ impl CpuProp {
     fn run_steps(&self, w: &mut WorldA, steps: usize, ctx: &mut RunCtx, lines_on: bool) -> Result<(), (Fail, Scenario)> {
         let me = self.0;
         let mut mon = Monitor { prev_m1: vec![] };
+        w.compare_control = me == Which::C02;
         let mut first_step = true;
         for _ in 0..steps {
             let pre_i = CpuState::from_impl(&mut w.cpu);
@@ -225,6 +226,10 @@ impl CpuProp {
                     }
                 }
                 Which::C02 => {
+                    if let Some(d) = &out.sampling_div {
+                        let f = Fail::new("C02.sequencing", &witness(&d.info, &d.what), format!("step {} ({} {:02X}, INT={} NMI={}): {}", d.step, page_name(d.info.page), d.info.opcode, out.lines.1, out.lines.0, d.what));
+                        return Err((f, d.single.clone()));
+                    }
                     if !first_step || true {
                         if let Some((site, text)) = mon.check(w, &out, &pre_i, &post_i) {
                             let single = out.div.as_ref().map(|d| d.single.clone()).or(out.timing_div.as_ref().map(|d| d.single.clone()));
